@@ -271,7 +271,7 @@ def run_team(ctx, quick):
                    exclude=["qthread.c", "teams.c", "sincs/donecount.c"])
     drv = ctx.model_driver("c05team_driver")
     configs = [(1, 1), (2, 2), (4, 1)] if quick else [(1, 1), (2, 2), (4, 1), (1, 4), (4, 4), (3, 2)]
-    ntree = 26 if quick else 260
+    ntree = 26 if quick else 600
     corpus = load_corpus()
     jobs = []
     for (sheps, workers) in configs:
